@@ -72,6 +72,25 @@ def _consumed(fn, e):
     return cur in _cond_ids(fn)
 
 
+def outparams(run, fx, rule):
+    n = 0
+    # the sfnt helpers that answer through out-parameters: when they say no, the out-parameters were never written
+    outq = sorted({f.q for f in fx.all_fns() if f.q.startswith('graphite2::TtfUtil::') and (f.f.get('ret') or '') == 'bool'
+                   and any((p_.get('t') or '').rstrip().endswith('&') and 'const' not in (p_.get('t') or '') for p_ in f.f.get('params') or [])})
+    for q in outq:
+        for fn, e in callers_of(fx, q):
+            if fn.q.startswith('graphite2::TtfUtil::'):
+                continue
+            n += 1
+            inst = 'answer of %s in %s@%s' % (q.split('::')[-1], fn.q.split('::')[-1], e['ln'])
+            if _consumed(fn, e):
+                run.held(rule, inst, fn.loc(e), 'the answer decides whether the out-parameters are used', False)
+            else:
+                run.violated(rule, inst, fn.loc(e), '%s answers through out-parameters and says whether it wrote them; %s ignores the answer and uses them anyway: for a table the helper refuses '
+                             '(a short hmtx, a glyph beyond it) the values are whatever the stack held -- the glyph\'s metrics then depend on what ran before, and are frozen in the glyph cache' % (q.split('::')[-1], fn.q))
+    return n
+
+
 def errdisc(run, fx):
     n = 0
     for fn, e in callers_of(fx, 'graphite2::Error::test'):
@@ -121,6 +140,7 @@ def errdisc(run, fx):
                 run.held('ERRDISC', inst, fn.loc(e), 'tabled exception: %s' % ERRDISC_EXCEPTIONS[(fn.q, q)], False)
             else:
                 run.violated('ERRDISC', inst, fn.loc(e), 'the load status returned by %s is ignored in %s: loading continues after a failed step' % (q, fn.q))
+    n += outparams(run, fx, 'ERRDISC')
     for fn, e in callers_of(fx, 'graphite2::Face::Table::decompress'):
         n += 1
         inst = 'status of decompress in %s@%s' % (fn.q.split('::')[-1], e['ln'])
